@@ -248,6 +248,7 @@ fn brief(it: &Item) -> String {
         Item::Sys(s) => format!("system {:?} deps {:?}", s.name, s.deps),
         Item::Batch(b) => format!("batch {:?} deps {:?}", b.name, b.deps),
         Item::Barrier => "barrier".into(),
+        Item::Failed(_) => "failed attempt".into(),
         Item::Tl(_) => "thread-local".into(),
     }
 }
